@@ -9,6 +9,7 @@ RULE = ('regexps: all trees with <= 4 nodes over {0,1,a,b} (thorough <= 5) and r
         'Relation: NFA valid, agrees with the proved matcher on all words <= 4 and is language-equal (exact) to the model NFA; regexp language-equal to the DFA for all word lengths (exact: proved regexp->NFA model + '
         'proved subset construction + proved product reachability); structural layer: the regexp equals the model result for some elimination order (<= 3 states). '
         'Non-trivial = the language is neither empty nor everything on words <= 3; distinct by object text.')
+RULE += ' Added after the seeded rounds: unusual state names (incl. the empty name).'
 CODES = {2: 'regexp_to_nfa raised', 3: 'regexp_to_nfa returned an invalid NFA', 4: 'NFA disagrees with the regexp semantics on a word <= 4', 5: 'NFA not language-equal to the model NFA', 8: 'internal: model out of names',
          9: 'generated DFA invalid (harness)', 10: 'dfa_to_gnfa edge labels differ', 11: 'dfa_to_regexp raised / model rejects', 12: 'dfa_to_regexp: expression not language-equal to the DFA',
          1: 'structure differs from the model, property-level relation holds'}
@@ -37,8 +38,8 @@ def gen(rng, tier):
     ds += rng.sample(G.all_dfas(3, 'a'), 80) if quick else G.all_dfas(3, 'a')
     ds += [G.random_dfa(rng, rng.randint(1, 5), rng.choice(['a', 'ab', '', '01', '1', 'a1', '_ε'])) for _ in range(120 if quick else 3000)]
     ds += [dict(d, Sigma=['0', '1'], delta=[[q, {'a': '0', 'b': '1'}[a], t] for q, a, t in d['delta']]) for d in (rng.sample(G.all_dfas(2, 'ab'), 40) if quick else G.all_dfas(2, 'ab'))]
-    for d in ds:
-        cases.append({'kind': 'dfa', 'D': d})
+    for i, d in enumerate(ds):
+        cases.append({'kind': 'dfa', 'D': G.retag(d, rng, allow_empty=True) if i % 6 == 1 and len(d['Q']) <= 6 else d})
     return cases
 
 
